@@ -77,7 +77,19 @@ fn isolated(html: &[u8], cfg: &Cfg, width: usize, secs: u64, clone: bool) -> Str
     if clone {
         args.push("clone".into());
     }
-    let mut child = match Command::new(exe).args(&args).stdin(Stdio::piped()).stdout(Stdio::piped()).stderr(Stdio::null()).spawn() {
+    // the harness is built with opt-level 1, whose stack frames are a fraction of the debug profile's (the profile the
+    // property speaks about): a recursion that overflows 8 MiB at depth 4*10^4 in a debug build needs 2*10^5 here.  The
+    // child therefore gets a 2 MiB main-thread stack, which restores roughly the debug profile's depth budget.
+    let mut child = match Command::new("sh")
+        .arg("-c")
+        .arg("ulimit -s 2048; exec \"$0\" \"$@\"")
+        .arg(exe)
+        .args(&args)
+        .stdin(Stdio::piped())
+        .stdout(Stdio::piped())
+        .stderr(Stdio::null())
+        .spawn()
+    {
         Ok(c) => c,
         Err(e) => return format!("spawn-error {e}"),
     };
@@ -223,6 +235,16 @@ impl Prop for C01 {
             run(format!("{}x{}", "<span>".repeat(d), "</span>".repeat(d)), &plain, 20, 120, false, "deep inline nesting", None, &mut res);
             run(format!("{}x", "<em>".repeat(d)), &Cfg::rich(), 20, 120, false, "deep inline nesting (rich)", None, &mut res);
         }
+        // the same depth below every element that has a handler of its own in the DOM -> render tree pass (link, cell,
+        // list item, heading, pre, sup, strikeout ...): a recursive helper in one of those arms overflows the stack only
+        // there (added after the seeded change C01-recursive-visibly-empty-link was missed by the plain <span>/<em> chains)
+        let dctx = if tier == Tier::Quick { 60000 } else { 100000 };
+        for (open, close) in [("<a href=\"u\">", "</a>"), ("<table><tr><td>", "</td></tr></table>"), ("<ul><li>", "</li></ul>"), ("<h2>", "</h2>"),
+                              ("<pre>", "</pre>"), ("<sup>", "</sup>"), ("<s>", "</s>"), ("<dl><dt>", "</dt></dl>")] {
+            let inner = if open.starts_with("<a") { "b" } else { "span" };
+            run(format!("{open}{}x{}{close}", format!("<{inner}>").repeat(dctx), format!("</{inner}>").repeat(dctx)), &plain, 20, 120, false, "deep inline nesting inside an element with its own handler", None, &mut res);
+        }
+        run(format!("<a href=\"u\">{}x</a>", "<em>".repeat(dctx)), &Cfg::rich(), 20, 120, false, "deep inline nesting inside a link (rich)", None, &mut res);
         let deepb: &[usize] = if tier == Tier::Quick { &[300] } else { &[300, 1000, 3000] };
         for &d in deepb {
             let mut c = plain.clone();
